@@ -614,6 +614,21 @@ def gen(tier, cmax, cmax_heavy, full, cmax_heavy_d3=6):
       A(F(f'ob_shared_{fam}_{tag}', _args(3, 4, extra), f'1 <= c0 <= 6 and 0 <= c1 <= {cmax if full else 4} and 0 <= c2 <= {cmax if full else 4}', f"""
       t = (lambda s_: {frame})({T2})
       return {call}"""))
+  # ---- one multi-key copying set whose 2nd key installs a container that also lives elsewhere in the viewed tree under a node the
+  #      1st key already went through, and whose 3rd key writes below that node again: the viewed data and the other path stay intact
+  for tag, mk_t, ka, kax, kaz, kb in (
+      ('dict', "{'a': {'x': l0, 'z': l1}, 'b': {'x': l2, 'z': l3}}", "'a'", "Key(('a', 'x'))", "Key(('a', 'z'))", "'b'"),
+      ('list', "[[l0, l1], [l2, l3]]", "Key((Index(0),))", "Key((Index(0), Index(0)))", "Key((Index(0), Index(1)))", "Key((Index(1),))")):
+    A(F(f'ob_multikey_alias_{tag}', 'l0: int, l1: int, l2: int, l3: int, v: int, w: int', 'True', f"""
+      import copy as _cp
+      t = {mk_t}
+      snap = _cp.deepcopy(t)
+      b_obj = View(t)[{kb}]
+      new = View(t).copy_and_set(({kax}, {ka}, {kaz}), (v, b_obj, w))
+      ok = t == snap and View(t)[{kb}] is b_obj                                   # the viewed data is unchanged at every depth
+      ok = ok and new[{kax}] == l2 and new[{kaz}] == w                             # sequential semantics of the three sets
+      ok = ok and new[{kb}] == snap[{'"b"' if tag == 'dict' else 1}]                # the unrelated path reads as before
+      return ok"""))
   A(F('ob_empty_roots', 'v: int', 'True', 'return fam_empty_roots(v)'))
   A(F('ob_root_scalar', 'v: int, a: int', 'v != 0', 'return fam_root_scalar(v, a)'))
   A(F('ob_np_interior', 'v: int', '0 <= v <= 2', 'return fam_np(v)'))
